@@ -13,7 +13,13 @@ R1 every `LoopOutputStep._process_output` (CWLLoopOutputAllStep / CWLLoopOutputL
    and retags it with the instance tag.  An output whose ordering cannot be established (arrival order,
    a copy, a slice, text key, max without int key, unreadable key, unknown output shape) is *reported* as a
    violation of the ordering obligation, never refused; returns that do not read token_map at all
-   (placeholders) carry no obligation, but at least one return must read it.
+   (placeholders) carry no ordering obligation, but at least one return must read it.  Tag obligation on *every*
+   returned value, placeholders included (the null output of an instance without iterations is matched downstream
+   by the instance's tag; the constructor default '0' is another instance's tag inside a scatter / outer loop): each
+   return is `<token>.retag(<tag parameter>)`, a Token-hierarchy constructor with tag=<tag parameter> (keyword or
+   the constructor's position), `<tagged>.update(v)`, or a resolved helper (inlining bound 2) all of whose returns
+   are tagged with a parameter bound to the tag parameter -- through temporaries / aliases; and every path through
+   the method ends in a `return <value>` (CFG must-pass-through, so guard clauses and nested ifs are alike).
 R2 `LoopOutputStep.run`: the expected count of an instance is `int(<last component>)` of the
    IterationTerminationToken's tag, stored under the tag's prefix; data tokens are appended under the
    same prefix; the emission test `len(token_map[prefix]) == size_map[prefix]` (equality, defaults that
@@ -94,7 +100,7 @@ META = {
     "explanation": (
         "AST/def-use rules on every LoopOutputStep._process_output (every output that reads token_map is selected by an int-keyed "
         "ordering of token_map[tag]: sorted / in-place sort / max / min through copies, reversed views and key helpers; "
-        "last = greatest iteration number, all = ascending ListToken with the instance tag; an unestablished ordering is a violation), CFG rules on LoopOutputStep.run "
+        "last = greatest iteration number, all = ascending ListToken with the instance tag; an unestablished ordering is a violation; every returned value, the placeholder of the empty case included, is tagged with the tag parameter on every path), CFG rules on LoopOutputStep.run "
         "(count from the iteration-termination tag, emission test reachable from both arrival kinds, emission shape), "
         "flow-sensitive tag-expression canonicalisation on LoopCombinator._product (counter created with 0 / incremented "
         "before use), truth-table folding of the re-arm guard of LoopCombinatorStep.run, shape of "
@@ -1029,6 +1035,7 @@ _RUN = f"{LOS}.run"
 _LP = f"{COMB}.LoopCombinator._product"
 _LT = f"{COMB}.LoopTerminationCombinator._product"
 _LR = f"{LCS}.run"
+_LAST_RET = "    return sorted(self.token_map.get(tag, [Token(value=None)]), key=lambda t: int(t.tag.split('.')[-1]))[-1].retag(tag=tag)"
 
 VARIANTS = [
     # R1
@@ -1064,7 +1071,7 @@ VARIANTS = [
     V("Last: output does not depend on the iterations", WFILE, _LAST, "return sorted(self.token_map.get(tag, [Token(value=None)]), key=lambda t: int(t.tag.split('.')[-1]))[-1].retag(tag=tag)",
       "return Token(value=None, tag=tag)", "R1"),
     V("Last: early return of the empty case skips the retag (seeded change C06-3)", WFILE, _LAST, _LAST_RET,
-      "    if not (tokens := self.token_map.get(tag)):\n        return Token(value=None)\n    return max(tokens, key=lambda t: int(t.tag.split('.')[-1])).retag(tag=tag)", "R1", control=True),
+      "    if not (tokens := self.token_map.get(tag)):\n        return Token(value=None)\n    return max(tokens, key=lambda t: int(t.tag.split('.')[-1])).retag(tag=tag)", "R1"),
     V("Last: placeholder tagged with the root tag", WFILE, _LAST, _LAST_RET,
       "    if tag not in self.token_map:\n        return Token(value=None, tag='0')\n" + _LAST_RET.replace(".get(tag, [Token(value=None)])", "[tag]"), "R1"),
     V("Last: bare return in the empty case", WFILE, _LAST, _LAST_RET,
@@ -1166,6 +1173,16 @@ VARIANTS = [
       "    def iteration(t):\n        return int(t.tag.split('.')[-1])\n    return sorted(self.token_map.get(tag, [Token(value=None)]), key=iteration)[-1].retag(tag=tag)", None),
     V("benign: Last with an early placeholder return", WFILE, _LAST, "    return sorted(self.token_map.get(tag, [Token(value=None)]), key=lambda t: int(t.tag.split('.')[-1]))[-1].retag(tag=tag)",
       "    if tag not in self.token_map:\n        return Token(value=None, tag=tag)\n    return sorted(self.token_map[tag], key=lambda t: int(t.tag.split('.')[-1]))[-1].retag(tag=tag)", None),
+    V("benign: Last with an early placeholder retagged through a temporary", WFILE, _LAST, _LAST_RET,
+      "    if not (tokens := self.token_map.get(tag)):\n        empty = Token(value=None)\n        return empty.retag(tag)\n"
+      "    return max(tokens, key=lambda t: int(t.tag.split('.')[-1])).retag(tag=tag)", None),
+    V("benign: Last with a positional tag and a copied instance tag", WFILE, _LAST, _LAST_RET,
+      "    instance = tag\n    if tag not in self.token_map:\n        return Token(None, instance)\n" + _LAST_RET.replace(".get(tag, [Token(value=None)])", "[tag]"), None),
+    V("benign: Last with the placeholder built by a helper", WFILE, _LAST, _LAST_RET,
+      "    if tag not in self.token_map:\n        return _c06_null_token(instance_tag=tag)\n" + _LAST_RET.replace(".get(tag, [Token(value=None)])", "[tag]"), None,
+      append="\n\ndef _c06_null_token(instance_tag):\n    null = Token(value=None, tag=instance_tag)\n    return null\n"),
+    V("benign: All with an early empty list token", WFILE, _ALL, "    return ListToken(tag=tag, value=sorted(",
+      "    if not self.token_map.get(tag):\n        return ListToken(value=[], tag=tag)\n    return ListToken(tag=tag, value=sorted(", None),
     V("benign: LoopCombinatorStep guard rewritten with De Morgan", SFILE, _LR,
       "if not (task_name in terminated and len(self.iteration_termination_checklist[task_name]) == 0):",
       "if task_name not in terminated or len(self.iteration_termination_checklist[task_name]) > 0:", None),
